@@ -18,6 +18,39 @@ CHECKS = {
              "CPython 3.13's registry comment block as ground truth. PyPy/Jython/Graal rows: coherence only.",
         technique="TLC exhaustive model checking of Magics.tla (65 536 states) over dumped implementation tables",
     ),
+    "C02": dict(
+        category="model_checking",
+        text="Spec S3 (Bytecode.tla) is CPython's instruction decoder for all eight decoding regimes. TLC (a) model-checks the writer/reader "
+             "composition BytecodeGen.tla for every opcode table xdis hands out (round trip, tiling, size sums), (b) exports every generated "
+             "code string, which is replayed into xdis (portable code object of that version) and into the installed CPython of that "
+             "version, and (c) acts as trace judge (BytecodeTrace.tla): every code object of the 263-file corpus and of modules compiled "
+             "by the nine installed interpreters is disassembled by xdis and each code unit's offset/opcode/opname/operand/inst_size/"
+             "has_extended_arg is checked against the reference decoder. The same judge validates the spec against CPython's own dis "
+             "on the same inputs in every run, so equality with CPython is transitive for 3.6-3.13.",
+        design_ref="DESIGN.md section 5 C02, specs S3",
+        note="Trusted: TLC + Json module; projection code (rec_bytecode.py, ora_bytecode.py); CPython's inline-cache table. Opcode numbers "
+             "of versions with no interpreter here are xdis's own (C09). Bounded: generated programs <= 2 (quick) / 3 (thorough) instructions.",
+        technique="TLA+ reference decoder; TLC model checking of generator+reader, TLC-generated behaviours replayed into xdis and CPython, TLC trace validation of recorded disassemblies",
+    ),
+    "C03": dict(
+        category="model_checking",
+        text="Same pipeline as C02; the clause judged is Resolve() of Bytecode.tla: for every table-indexed operand TLC recomputes "
+             "(table, index) under the version's encoding (3.11+ localsplus table with de-duplicated cells, LOAD_GLOBAL/LOAD_ATTR/"
+             "LOAD_SUPER_ATTR shifts, 3.12/3.13 COMPARE_OP shifts, 3.13 paired FAST operands) and requires the logged argval to be that entry. "
+             "Generated code objects carry 300-entry tables and a cell that is also a local.",
+        design_ref="DESIGN.md section 5 C03, spec S3",
+        note="argrepr is not compared; comparison operators are compared by index into the producer's own cmp_op; CPython's UNKNOWN argval constrains nothing.",
+        technique="TLA+ operand-resolution rules checked by TLC on generated and recorded instruction streams (xdis and CPython)",
+    ),
+    "C04": dict(
+        category="model_checking",
+        text="Same pipeline as C02; clauses: Target() formula per regime (relative/absolute, x2 from 3.10, backward opcodes 3.11+, own inline caches from 3.12), "
+             "findlabels() = set of all targets, is_jump_target marks = (labels + 3.11+ handler targets) on instruction starts, and alignment of every target "
+             "on compiler-produced code. Three observables (argval, findlabels, marks) are each compared with the spec, hence with each other.",
+        design_ref="DESIGN.md section 5 C04, specs S3 (S5 for handler targets)",
+        note="As C02. CPython 3.13's Bytecode also labels exception-range boundaries (a listing device); the oracle uses get_instructions there.",
+        technique="TLA+ jump-target semantics; TLC model checking + behaviour replay + trace validation against xdis and CPython",
+    ),
 }
 
 NOT_YET = "check not built yet in this round (planned: see DESIGN.md section 5); not claimed until its machinery exists"
